@@ -607,6 +607,15 @@ def _arm_kind(fn_node, node, var):
             names = {(dotted(e) or "").split(".")[-1] for e in (m.test.args[1].elts if isinstance(m.test.args[1], ast.Tuple) else [m.test.args[1]])}
             if names and names <= _GROUPS:
                 best = (m.lineno, "group") if best is None or m.lineno > best[0] else best
+        # guard clause: `if not isinstance(var, <Group>): return / raise` - what follows it sees a group
+        if isinstance(m, ast.If) and isinstance(m.test, ast.UnaryOp) and isinstance(m.test.op, ast.Not) and isinstance(m.test.operand, ast.Call) \
+                and dotted(m.test.operand.func) == "isinstance" and len(m.test.operand.args) == 2 and isinstance(m.test.operand.args[0], ast.Name) \
+                and m.test.operand.args[0].id == var and not m.orelse and isinstance(m.body[-1], (ast.Return, ast.Raise, ast.Continue, ast.Break)) \
+                and getattr(node, "lineno", 0) > (m.end_lineno or m.lineno):
+            t = m.test.operand.args[1]
+            names = {(dotted(e) or "").split(".")[-1] for e in (t.elts if isinstance(t, ast.Tuple) else [t])}
+            if names and names <= _GROUPS:
+                best = (m.lineno, "group") if best is None or m.lineno > best[0] else best
     return best[1] if best else None
 
 
@@ -639,7 +648,7 @@ def check_group_api_on_the_catch_all(eng, run):
                     bad.append((x, f"`{v}.{x.attr}` is read in a `case` arm that matched `{v}` against a class that is not an exception group"))
                     continue
                 members = _ann_members(params.get(v)) if v in params else None
-                if members and any(m in _GROUPS for m in members) and any(m not in _GROUPS for m in members):
+                if members and any(m in _GROUPS for m in members) and any(m not in _GROUPS and m != "None" for m in members):  # (`<Group> | None` with an `is None` test is not this rule's business)
                     bad.append((x, f"`{v}.{x.attr}` is read although `{v}` is declared `{ast.unparse(params[v])}`: the non-group member has no `{x.attr}`"))
             if isinstance(x, ast.Call) and isinstance(x.func, ast.Attribute) and dotted(x.func.value) == fn.self_name:
                 m = ctx.find_method(x.func.attr)
